@@ -106,19 +106,6 @@ where
     ) -> Result<Option<ResetToken>, Error> {
         let seq = frame.sequence();
         let retire_prior_to = frame.retire_prior_to();
-        let active_len = seq.saturating_sub(retire_prior_to);
-        if active_len > self.active_cid_limit {
-            return Err(QuicError::new(
-                ErrorKind::ConnectionIdLimit,
-                frame.frame_type().into(),
-                format!(
-                    "{active_len} exceed active_cid_limit {}",
-                    self.active_cid_limit
-                ),
-            )
-            .into());
-        }
-
         // Discard the frame if the sequence number is less than the current offset.
         if seq < self.cid_deque.offset() {
             return Ok(None);
@@ -146,6 +133,8 @@ where
         // RFC 9000 §5.1.1: after adding and retiring connection IDs, the number of active
         // connection IDs must not exceed the active_connection_id_limit we advertised.
         // Active = received, not below retire_prior_to, and not retired by the path that held it.
+        // (`seq - retire_prior_to` says nothing about that number: the IDs in between may have
+        // been retired by their paths already, so it must not be used to reject the frame.)
         let retired_by_path = self
             .ready_cells
             .iter()
